@@ -225,6 +225,42 @@ def run(chk, facts, info):
     rule_r3(chk, facts)
     rule_r4(chk, facts)
     rule_r5(chk, facts)
+    chk.rule('C09-R7', 'in the data-definition modules the range check of a data value is skipped only for values that are '
+             'not final yet: a symbol-flag test that decides whether RangeCheck()/ChkRange() runs uses a mask within '
+             'FirstPassUnknown | Questionable (a value that merely uses a forward reference is final in the last pass and '
+             'must still be checked)', min_instances=3)
+    u0 = facts.unit('motpseudo.c')
+    allowed = int(u0.enums.get('eSymbolFlag_FirstPassUnknown', 4)) | int(u0.enums.get('eSymbolFlag_Questionable', 8))
+    n7 = 0
+    for un in R5_UNITS:
+        u = facts.unit(un)
+        for f in u.funcs.values():
+            if f.file != un:
+                continue
+            sites = [(b, i, ln) for b, i, ln, c in f.calls({'RangeCheck', 'ChkRange', 'FloatRangeCheck'})]
+            if not sites:
+                continue
+            for bid, bl in f.blocks.items():
+                c = bl.get('cond')
+                if c is None or len(bl['succ']) != 2:
+                    continue
+                masks = [const_val(m[3]) for m in walk(c) if isinstance(m, (list, tuple)) and len(m) > 3 and m[0] == 'b' and m[1] == '&' and
+                         const_val(m[3]) is not None and 'Flags' in show(m[2])]
+                if not masks:
+                    continue
+                for (b, i, ln) in sites:
+                    dep = any(f.guarded(b, i, lambda l, c=c, pol=pol: l is not None and l[0] == pol and l[1] is c)[0] for pol in ('T', 'F'))
+                    if not dep:
+                        continue
+                    n7 += 1
+                    ok = all((mk & ~allowed) == 0 for mk in masks)
+                    chk.ob('C09-R7', '%s:%s:rangecheck-skip-mask@%d' % (un, f.name, ln), ok, f.loc(ln),
+                           'skipped only for unknown/questionable values' if ok else
+                           'the range check is skipped when (flags & %#x) is set; %#x lies outside FirstPassUnknown|Questionable: a '
+                           'final out-of-range value computed from a forward reference is truncated instead of rejected' %
+                           (masks[0], masks[0] & ~allowed))
+    if n7 < 3:
+        raise AnalysisBroken('only %d flag-conditional range checks found' % n7)
     chk.rule('C09-R6', 'in the data-definition modules a character of a string argument reaches the emitters as an unsigned '
              'byte: a plain char is passed only to byte-wide parameters, or converted to unsigned char first (strings go '
              'through the character map as codes 0..255, also into words, longs, quads and floats)', min_instances=6)
